@@ -81,6 +81,7 @@ type c21Case struct {
 	pollDebt map[string]int
 	pollSeen map[string]bool
 	curEntry string // worker goroutine only
+	lastMs   int64
 	saved    []string // ULIDs of the entries stored by the operation in progress
 }
 
@@ -227,7 +228,18 @@ type c21Repo struct {
 	cs *c21Case
 }
 
+// c21NextMilli: entry ids are ULIDs from ulid.Make(); two entries made within one millisecond keep
+// their order only if no other goroutine (another lane) resets the process-wide monotonic entropy in
+// between. Spacing a case's entries by a millisecond keeps "ids ascend in acceptance order" true.
+func c21NextMilli(last *int64) {
+	for time.Now().UnixMilli() <= *last {
+		time.Sleep(200 * time.Microsecond)
+	}
+	*last = time.Now().UnixMilli()
+}
+
 func (r *c21Repo) SaveStorageOutboxEntry(ctx context.Context, tx *sql.Tx, outboxId string, e *storageoutboxentry.Entity) error {
+	c21NextMilli(&r.cs.lastMs)
 	err := r.Repository.SaveStorageOutboxEntry(ctx, tx, outboxId, e)
 	if err == nil && e.Id != nil {
 		cs := r.cs
